@@ -32,6 +32,7 @@ ASSUMPTIONS = ['an update that raises makes the premise "completes without error
 
 
 WRITE_KINDS = ('open.w', 'write', 'unlink', 'truncate', 'rename')
+READ_KINDS = ('scandir', 'scandir.next', 'stat', 'lstat', 'fstat', 'os.open', 'open', 'read')
 WRITE_ERRNOS = ['ENOSPC', 'EDQUOT', 'EROFS', 'EIO', 'EACCES']
 
 
@@ -42,6 +43,11 @@ def generate(rng, tier, idx):
         # crash point: one save of an earlier round dies at a write-side call (full disk, I/O error), leaving whatever
         # it had written so far; the following rounds meet that half-saved state as their prior state
         sc['crash'] = {'pick': rng.getrandbits(30), 'errno': rng.choice(WRITE_ERRNOS)}
+    elif rng.random() < 0.15:
+        # transient read-side fault inside one update (one call of its scan fails once: a directory listing, a stat, an
+        # open, a read): the update may fail - if it completes, what it saved is audited like any other result
+        sc['scan_fault'] = {'pick': rng.getrandbits(30), 'errno': rng.choice(['EIO', 'EIO', 'EACCES', 'ENOMEM', 'ESTALE']),
+                            'pref': rng.choice(['scandir', 'scandir', 'any'])}
     return sc
 
 
@@ -70,10 +76,27 @@ def execute(sc, families=FAMILIES, want_idempotence=False):
         if sites:
             s_ = sites[sc['crash']['pick'] % len(sites)]
             faults = [{'kinds': [s_[0]], 'path': s_[1], 'nth': s_[2], 'errno': sc['crash']['errno']}]
+    elif sc.get('scan_fault'):
+        # (same audits as the real run: the fault is addressed by the global call index)
+        h0 = run_history(copy.deepcopy(sc), want_idempotence=want_idempotence)
+        s0 = h0['seams'][0]
+        uops = h0.get('update_ops', [])
+        sites = [(kind, n) for (n, kind, rel, outcome) in s0.events
+                 if kind in READ_KINDS and any(a_ < n <= b_ for a_, b_ in uops)]
+        if sc['scan_fault']['pref'] == 'scandir' and any(k_.startswith('scandir') for k_, n_ in sites):
+            sites = [x_ for x_ in sites if x_[0].startswith('scandir')]
+        if sites:
+            k_, n_ = sites[sc['scan_fault']['pick'] % len(sites)]
+            faults = [{'at': n_, 'errno': sc['scan_fault']['errno']}]      # (global call index: the run is identical up to there)
     h = run_history(sc, want_idempotence=want_idempotence, faults=faults)
     if faults:
         fired = sum(f_.get('_fired', 0) for f_ in h['seams'][0].faults)
-        h['counters']['histories_with_a_crashed_save'] = 1 if fired else 0
+        if sc.get('scan_fault'):
+            h['counters']['histories_with_a_transient_scan_fault'] = 1 if fired else 0
+            if fired and not any(r_[0] != 'ok' for r_ in h['results']):
+                h['counters']['updates_completed_despite_a_scan_fault'] = 1
+        else:
+            h['counters']['histories_with_a_crashed_save'] = 1 if fired else 0
     vs = [v for v in h['violations'] if v['clause'].split('.')[0] in families]
     c = h['counters']
     nontrivial = c.get('audited_updates', 0) > 0
